@@ -393,8 +393,8 @@ def run(ctx: Ctx):
     cases, metas = [], []
     n_ref = 0
     for i, e in enumerate(cat):
-        per[e.cls] = per.get(e.cls, 0) + 1
-        if ctx.quick and per[e.cls] > 10:
+        per[e.group] = per.get(e.group, 0) + 1
+        if ctx.quick and per[e.group] > 10:
             continue
         key = {"catalogue_seed": ctx.seed, "level": level, "index": i, **e.key()}
         try:
